@@ -73,7 +73,7 @@ def run(ctx, rep):
     rep.analysed["functions"] = sorted(short(f.qualname) for f in own.reachable)
 
     rep.rule("C11.1", "every mutating operation reachable from the entry points acts on a fresh or visitor-owned object, never on one that may alias the input", floor=80)
-    rep.rule("C11.3", "stores to attributes of input-reachable objects are idempotent caches from the per-symbol table", floor=1)
+    rep.rule("C11.3", "stores to attributes of input-reachable objects are idempotent caches from the per-symbol table", floor=0)
     n_sites = 0
     for f in own.reachable:
         s = own.summaries[f.qualname]
